@@ -41,6 +41,9 @@ pub struct SimCfg {
     pub second_group: bool,
     /// flow control that keeps every fork within the configured retention depth
     pub bounded_depth: bool,
+    /// linear commits applied by everybody before the driven phase (so that histories also run at
+    /// epochs 9, 10, 11 ... - two-digit epoch numbers - and with a full snapshot queue)
+    pub warmup_commits: usize,
 }
 
 impl SimCfg {
@@ -69,6 +72,7 @@ impl SimCfg {
             rumor_ts_values: 3,
             second_group: false,
             bounded_depth: true,
+            warmup_commits: 0,
         }
     }
 }
